@@ -1,1 +1,55 @@
-(* placeholder *) From Klepto Require Import Keys.
+(* C09  Key canonicalisation: equivalent calls map to one key. *)
+From Klepto Require Import PyVal KFacts Keys KeygenFacts KeyProps.
+
+(* _keygen returns, as (extra positionals, finite map), exactly Python's binding of the call with
+   the ignored parameters replaced by NULL - for every signature (positional-or-keyword parameters
+   with/without defaults, *args, keyword-only parameters, **kwargs), every ignore specification,
+   every valid call and every iteration order of the ignored-name set *)
+Theorem C09_keygen_is_the_binding : forall sig ignored order c b, wf_sig sig -> wf_call c ->
+  (forall n, In n order <-> In n (names_to_ignore (sig_explicit sig) ignored)) ->
+  bind sig c = Some b ->
+  fst (keygen_ord sig ignored order c) = spec_args sig ignored b /\
+  (forall n, kget (snd (keygen_ord sig ignored order c)) n = spec_map sig ignored b n) /\
+  NoDup (kkeys (snd (keygen_ord sig ignored order c))).
+Proof. exact keygen_spec. Qed.
+
+(* Two calls that bind the same values to the same parameters (positional or keyword, any keyword
+   order, defaults spelled out or omitted) produce the SAME structured key under every raw keymap
+   configuration - flat or not, typed or not, with or without sentinel.  Serialising keymaps
+   (string / pickle / named hash) apply a function to this key, hence agree as well. *)
+Theorem C09_key_canonical : forall sig ignored k order1 order2 c1 c2 b1 b2,
+  wf_sig sig -> wf_call c1 -> wf_call c2 -> order_ok sig ignored order1 -> order_ok sig ignored order2 ->
+  bind sig c1 = Some b1 -> bind sig c2 = Some b2 -> same_binding b1 b2 ->
+  keymap_raw k (fst (keygen_ord sig ignored order1 c1)) (snd (keygen_ord sig ignored order1 c1)) =
+  keymap_raw k (fst (keygen_ord sig ignored order2 c2)) (snd (keygen_ord sig ignored order2 c2)).
+Proof. exact key_canonical. Qed.
+
+(* non-vacuity: def f(x, y=3, *args, k, m=5, **kw); f(1, k=7, z=9) and f(k=7, z=9, y=3, x=1)
+   are valid, bind identically, and get one key under all 8 raw keymap configurations *)
+Definition sx := [120]. Definition sy := [121]. Definition sk := [107]. Definition sm := [109]. Definition sz := [122].
+Definition sig0 := mkSig [(sx, None); (sy, Some (VInt 3))] true [(sk, None); (sm, Some (VInt 5))] true.
+Definition call1 : call := ([VInt 1], [(sk, VInt 7); (sz, VInt 9)]).
+Definition call2 : call := ([], [(sk, VInt 7); (sz, VInt 9); (sy, VInt 3); (sx, VInt 1)]).
+
+Example C09_witness :
+  wf_sig sig0 /\ wf_call call1 /\ wf_call call2 /\
+  (exists b1 b2, bind sig0 call1 = Some b1 /\ bind sig0 call2 = Some b2 /\ same_binding b1 b2) /\
+  forallb (fun k => py_eqb (key_of sig0 [] k call1) (key_of sig0 [] k call2))
+          [mkK false true false; mkK false true true; mkK true true false; mkK true true true;
+           mkK false false false; mkK false false true; mkK true false false; mkK true false true] = true /\
+  key_of sig0 [] (mkK false true false) call1 =
+    VTup [VStr sk; VInt 7; VStr sm; VInt 5; VStr sx; VInt 1; VStr sy; VInt 3; VStr sz; VInt 9].
+Proof.
+  split; [|split; [|split; [|split; [|split]]]].
+  - unfold wf_sig, sig0, names_of; cbn. repeat constructor; cbn; intuition discriminate.
+  - unfold wf_call, call1; cbn. repeat constructor; cbn; intuition discriminate.
+  - unfold wf_call, call2; cbn. repeat constructor; cbn; intuition discriminate.
+  - eexists. eexists. split; [vm_compute; reflexivity|]. split; [vm_compute; reflexivity|].
+    unfold same_binding, map_eq. repeat split; intros n; cbn [b_named b_extra_kw kget assoc];
+      repeat (destruct (str_eqb n _); [reflexivity|]); reflexivity.
+  - vm_compute. reflexivity.
+  - vm_compute. reflexivity.
+Qed.
+
+Print Assumptions C09_keygen_is_the_binding.
+Print Assumptions C09_key_canonical.
